@@ -1,166 +1,31 @@
 import JadeModel.Proofs.SystemRows
 import JadeModel.Proofs.Reference
+import JadeModel.Proofs.SystemOutcomeDefs
+import JadeModel.Proofs.SystemOutcomeAA
+import JadeModel.Proofs.SystemOutcomeAB
+import JadeModel.Proofs.SystemOutcomeAC
+import JadeModel.Proofs.SystemOutcomeBA
+import JadeModel.Proofs.SystemOutcomeBB
+import JadeModel.Proofs.SystemOutcomeBC
 
 set_option linter.unusedSimpArgs false
 
-/-! Outcome invariants (C03/C04/C12): every row is locally justified. -/
+/-! Outcome invariants (C03/C04/C12): the step lemmas assembled from their parts (compiled in parallel), lifting to runs. -/
 
 namespace Jade.Sys
 
-def OnDiskF (pr : List Row) (nf : Bid → List Row) (r : Row) : Prop := r ∈ pr ∨ ∃ b, r ∈ nf b
-def GoodRowF (pr : List Row) (nf : Bid → List Row) (j : JobId) : Prop :=
-  ∃ r, OnDiskF pr nf r ∧ r.job = j ∧ r.bad = false
-def BadRowF (pr : List Row) (nf : Bid → List Row) (j : JobId) : Prop :=
-  ∃ r, OnDiskF pr nf r ∧ r.job = j ∧ r.bad = true
-
-def OnDisk (s : Sys) (r : Row) : Prop := OnDiskF s.processed s.nodeFile r
-def GoodRow (s : Sys) (j : JobId) : Prop := GoodRowF s.processed s.nodeFile j
-def BadRow (s : Sys) (j : JobId) : Prop := BadRowF s.processed s.nodeFile j
-
-theorem onDisk_iff (s : Sys) (r : Row) : OnDisk s r ↔ RowOnDisk s r := Iff.rfl
-
-theorem onDisk_step {s s' : Sys} {op : Op} (h : step s op = some s') (r : Row) (hr : OnDisk s r) : OnDisk s' r :=
-  rowOnDisk_step h r hr
-
-theorem goodRow_step {s s' : Sys} {op : Op} (h : step s op = some s') (j : JobId) (hr : GoodRow s j) : GoodRow s' j := by
-  obtain ⟨r, h1, h2, h3⟩ := hr
-  exact ⟨r, onDisk_step h r h1, h2, h3⟩
-
-theorem badRow_step {s s' : Sys} {op : Op} (h : step s op = some s') (j : JobId) (hr : BadRow s j) : BadRow s' j := by
-  obtain ⟨r, h1, h2, h3⟩ := hr
-  exact ⟨r, onDisk_step h r h1, h2, h3⟩
-
-/-- the row an event writes is on disk afterwards -/
-def newOnDisk (s s' : Sys) : Op → Prop
-  | .cancelRow _ j => OnDisk s' ⟨j, 1, true⟩
-  | .nodeRow _ j => OnDisk s' ⟨j, s.sc.rc j, false⟩
-  | .nodeCancel _ j => OnDisk s' ⟨j, 1, true⟩
-  | _ => True
-
-theorem newOnDisk_step {s s' : Sys} {op : Op} (h : step s op = some s') : newOnDisk s s' op := by
-  cases op <;> simp only [newOnDisk] <;> (try trivial)
-  case cancelRow p j =>
-    step_cases h; frame_all
-    rename_i hg _
-    refine Or.inl ?_
-    simp [hg.2]
-  case nodeRow p j =>
-    step_cases h; frame_all
-    rename_i n _ _
-    exact Or.inr ⟨n.bid, by simp⟩
-  case nodeCancel p j =>
-    step_cases h; frame_all
-    rename_i n _ _
-    exact Or.inr ⟨n.bid, by simp⟩
-
-/-- plain-language forms of the decision predicates used as guards -/
-theorem mustCancel_iff (sc : Scn) (x : SubP) (j : JobId) :
-    mustCancel sc x j = true ↔
-      (x.loc.st j = .ns ∧ x.loc.blk j ≠ [] ∧ sc.flag j = true ∧
-        ∃ b ∈ x.loc.blk j, ∃ r ∈ x.pass, r.job = b ∧ r.bad = true) := by
-  simp only [mustCancel, badIn, Bool.and_eq_true, beq_iff_eq, Bool.not_eq_true', List.isEmpty_eq_false_iff,
-    List.any_eq_true]
-  constructor
-  · rintro ⟨⟨⟨h1, h2⟩, h3⟩, b, hb, r, hr, hjb⟩
-    exact ⟨h1, h2, h3, b, hb, r, hr, by simpa using hjb.1, hjb.2⟩
-  · rintro ⟨h1, h2, h3, b, hb, r, hr, hj, hbad⟩
-    exact ⟨⟨⟨h1, h2⟩, h3⟩, b, hb, r, hr, by simp [hj], hbad⟩
-
-theorem cancelSetOk_iff (sc : Scn) (x : SubP) (ks : List JobId) (h : cancelSetOk sc x ks = true) :
-    (∀ j ∈ ks, j < sc.n ∧ mustCancel sc x j = true) ∧ (∀ j, j < sc.n → mustCancel sc x j = true → j ∈ ks) := by
-  simp only [cancelSetOk, Bool.and_eq_true, List.all_eq_true, decide_eq_true_eq, Bool.or_eq_true,
-    Bool.not_eq_true', List.mem_range, List.contains_eq_mem] at h
-  refine ⟨fun j hj => h.1 j hj, fun j hj hm => ?_⟩
-  rcases h.2 j hj with h' | h'
-  · rw [hm] at h'; cases h'
-  · simpa using h'
-
-theorem nodeCancel_guard_iff (n : NodeP) (j : JobId) :
-    ((n.nblk j).any (fun b => badIn n.seen b)) = true ↔ ∃ b ∈ n.nblk j, ∃ r ∈ n.seen, r.job = b ∧ r.bad = true := by
-  simp only [badIn, List.any_eq_true, Bool.and_eq_true, beq_iff_eq]
-
-end Jade.Sys
-
-namespace Jade.Sys
-
-macro "frame_out" : tactic => `(tactic|
-  try simp only [OnDisk, GoodRow, BadRow, HasRow, mustCancel_iff, nodeCancel_guard_iff, freshHid_some_iff, holderPend,
-    holderBidx, holderSub, Orphan, procs_setSub, procs_setNode, procs_setProc, setSub_fields, setNode_fields,
-    setProc_fields, holds_iff] at *)
-
-/-- auxiliary facts: remaining-blocker sets are subsets of the configured ones, what a process has
-    seen is on disk, pending cancel decisions are justified -/
-structure OutcomeA (s : Sys) : Prop where
-  subDisk : ∀ j b, b ∈ s.disk.blk j → b ∈ s.sc.blockers j
-  subLoc : ∀ q a y, s.procs q = .sub a y → ∀ j b, b ∈ y.loc.blk j → b ∈ s.sc.blockers j
-  subBatch : ∀ B ∈ s.batches, ∀ j b, b ∈ B.handed j → b ∈ s.sc.blockers j
-  subNode : ∀ p a n, s.procs p = .node a n → ∀ j b, b ∈ n.nblk j → b ∈ s.sc.blockers j
-  passOn : ∀ q a y, s.procs q = .sub a y → ∀ r ∈ y.pass, OnDisk s r
-  seenOn : ∀ p a n, s.procs p = .node a n → ∀ r ∈ n.seen, OnDisk s r
-  toCancelOk : ∀ q a y, s.procs q = .sub a y → ∀ j ∈ y.toCancel,
-    s.sc.flag j = true ∧ ∃ b ∈ s.sc.blockers j, BadRow s b
-  runningStarted : ∀ p a n, s.procs p = .node a n → ∀ j ∈ n.running, j ∈ s.starts.map (·.1)
-  newlyDisj : ∀ q a y, s.procs q = .sub a y → ∀ j, y.loc.st j = .ns → ∀ b ∈ y.loc.blk j, b ∉ y.newly
-
-theorem outcomeA_init (sc : Scn) : OutcomeA (init sc) := by
-  refine ⟨?_, ?_, ?_, ?_, ?_, ?_, ?_, ?_, ?_⟩ <;> simp [init]
-
-set_option maxHeartbeats 32000000 in
 theorem outcomeA_step {s s' : Sys} {op : Op} (hi : OutcomeA s) (h : step s op = some s') : OutcomeA s' := by
-  have hon := fun r => onDisk_step h r
-  have hbad := fun j => badRow_step h j
-  have hnew := newOnDisk_step h
-  have hsc := sc_step h
-  obtain ⟨a1, a2, a3, a4, a5, a6, a7, a8, a9⟩ := hi
-  cases op <;> simp only [newOnDisk] at hnew <;> step_cases h <;>
-    (refine ⟨?_, ?_, ?_, ?_, ?_, ?_, ?_, ?_, ?_⟩ <;> frame_out)
-  all_goals first
-    | proc_clause
-    | grind [SubP.load, persistStatus, find?_hid, OnDiskF, BadRowF, cancelSetOk_iff, mustCancel_iff]
+  obtain ⟨c_subDisk, c_subLoc, c_subBatch⟩ := outcomeA_step_a hi h
+  obtain ⟨c_subNode, c_passOn, c_seenOn⟩ := outcomeA_step_b hi h
+  obtain ⟨c_toCancelOk, c_runningStarted, c_newlyDisj⟩ := outcomeA_step_c hi h
+  exact ⟨c_subDisk, c_subLoc, c_subBatch, c_subNode, c_passOn, c_seenOn, c_toCancelOk, c_runningStarted, c_newlyDisj⟩
 
-end Jade.Sys
-
-namespace Jade.Sys
-
-/-- every row is locally justified; a flagged job waits (or has been started) only while each of its
-    blockers is still listed or has a successful row -/
-structure OutcomeB (s : Sys) : Prop where
-  lc1 : ∀ r, OnDisk s r → r.canceled = false → r.rc = s.sc.rc r.job ∧ r.job ∈ s.starts.map (·.1)
-  lc2 : ∀ r, OnDisk s r → r.canceled = true →
-    s.sc.flag r.job = true ∧ r.rc = 1 ∧ ∃ b ∈ s.sc.blockers r.job, BadRow s b
-  flagDisk : ∀ j, j < s.sc.n → s.sc.flag j = true → s.disk.st j = .ns →
-    ∀ b ∈ s.sc.blockers j, b ∈ s.disk.blk j ∨ GoodRow s b
-  flagLoc : ∀ q a y, s.procs q = .sub a y → ∀ j, j < s.sc.n → s.sc.flag j = true → y.loc.st j = .ns →
-    ∀ b ∈ s.sc.blockers j, b ∈ y.loc.blk j ∨ GoodRow s b
-  flagBatch : ∀ B ∈ s.batches, ∀ j ∈ B.jobs, s.sc.flag j = true →
-    ∀ b ∈ s.sc.blockers j, b ∈ B.handed j ∨ GoodRow s b
-  flagNode : ∀ p a n, s.procs p = .node a n → ∀ j ∈ n.queued, s.sc.flag j = true →
-    ∀ b ∈ s.sc.blockers j, b ∈ n.nblk j ∨ GoodRow s b
-  lc3 : ∀ j ∈ s.starts.map (·.1), s.sc.flag j = true → ∀ b ∈ s.sc.blockers j, GoodRow s b
-
-theorem outcomeB_init (sc : Scn) : OutcomeB (init sc) := by
-  refine ⟨?_, ?_, ?_, ?_, ?_, ?_, ?_⟩ <;> simp [init, OnDisk, OnDiskF]
-  intro j _ _ b hb; exact Or.inl hb
-
-set_option maxHeartbeats 32000000 in
 theorem outcomeB_step {s s' : Sys} {op : Op} (ha : OutcomeA s) (hi : OutcomeB s) (h : step s op = some s') :
     OutcomeB s' := by
-  have hon := fun r => onDisk_step h r
-  have hbad := fun j => badRow_step h j
-  have hgood := fun j => goodRow_step h j
-  have hsc := sc_step h
-  have hnew := newOnDisk_step h
-  obtain ⟨a1, a2, a3, a4, a5, a6, a7, a8, a9⟩ := ha
-  obtain ⟨b1, b2, b3, b4, b5, b6, b7⟩ := hi
-  cases op <;> simp only [newOnDisk] at hnew <;> step_cases h <;>
-    (refine ⟨?_, ?_, ?_, ?_, ?_, ?_, ?_⟩ <;> frame_out)
-  all_goals first
-    | proc_clause
-    | grind [SubP.load, persistStatus, find?_hid, OnDiskF, BadRowF, GoodRowF, cancelSetOk_iff, mustCancel_iff, Row.bad]
-
-end Jade.Sys
-
-namespace Jade.Sys
+  obtain ⟨c_lc1, c_lc2⟩ := outcomeB_step_a ha hi h
+  obtain ⟨c_flagDisk, c_flagLoc⟩ := outcomeB_step_b ha hi h
+  obtain ⟨c_flagBatch, c_flagNode, c_lc3⟩ := outcomeB_step_c ha hi h
+  exact ⟨c_lc1, c_lc2, c_flagDisk, c_flagLoc, c_flagBatch, c_flagNode, c_lc3⟩
 
 theorem outcome_run {s s' : Sys} (ops : List Op) (ha : OutcomeA s) (hb : OutcomeB s) (h : run s ops = some s') :
     OutcomeA s' ∧ OutcomeB s' := by
@@ -175,29 +40,5 @@ theorem outcome_run {s s' : Sys} (ops : List Op) (ha : OutcomeA s) (hb : Outcome
 theorem outcome_reach (sc : Scn) (ops : List Op) (s : Sys) (h : run (init sc) ops = some s) :
     OutcomeA s ∧ OutcomeB s :=
   outcome_run ops (outcomeA_init sc) (outcomeB_init sc) h
-
-/-- the configuration of a scenario as a dependency graph -/
-def Scn.graph (sc : Scn) : Jade.Ref.Graph := { n := sc.n, blockers := sc.blockers, flag := sc.flag, rc := sc.rc }
-
-def Row.outcome (r : Row) : Jade.Ref.Outcome := ⟨r.canceled, r.rc⟩
-
-theorem Row.outcome_bad (r : Row) : r.outcome.bad = r.bad := rfl
-
-/-- "job `j` has a recorded row with outcome `o`" -/
-def RowFor (s : Sys) (j : JobId) (o : Jade.Ref.Outcome) : Prop := ∃ r, OnDisk s r ∧ r.job = j ∧ r.outcome = o
-
-def StartedJ (s : Sys) (j : JobId) : Prop := j ∈ s.starts.map (·.1)
-
-/-- the local invariants are exactly the premises of the graph lemma -/
-theorem outcome_local {s : Sys} (hb : OutcomeB s) : Jade.Ref.Local s.sc.graph (RowFor s) (StartedJ s) := by
-  refine ⟨?_, ?_, ?_⟩
-  · rintro j o ⟨r, hr, rfl, rfl⟩ hc
-    exact hb.lc1 r hr hc
-  · rintro j o ⟨r, hr, rfl, rfl⟩ hc
-    obtain ⟨h1, h2, b, hbb, r', hr', hj', hbad⟩ := hb.lc2 r hr hc
-    exact ⟨h1, h2, b, hbb, r'.outcome, ⟨r', hr', hj', rfl⟩, hbad⟩
-  · intro j hj hf b hbb
-    obtain ⟨r', hr', hj', hgood⟩ := hb.lc3 j hj hf b hbb
-    exact ⟨r'.outcome, ⟨r', hr', hj', rfl⟩, hgood⟩
 
 end Jade.Sys
